@@ -272,52 +272,58 @@ def l5(ctx, rid):
     prog = ctx.prog
     req = 'storage::observer::Observer::<K>::try_update_active_blob'
     prog.one(req)
+    LIMITS = ('file_size', 'records_count', 'max_blob_size', 'max_data_in_blob')
+    # (1) every rotation request is controlled by a switch whose condition derives (across helper returns) from the blob
+    #     size / record count limits; remember which calls compute that condition
+    reqs = [r for f in prog.fns.values() if f.file.startswith('src/storage/') for r in f.calls if req in prog.resolve(r) and r.name != 'poll']
+    controlled = []   # (request call, switch block, condition origin calls)
+    for r in reqs:
+        f = r.fn
+        rb = core.completion_block(f, r)
+        exits = [bb for (bb, k, _) in core.exit_defs(f) if k in ('ok', 'fwd', 'val') and bb in f.reachable()]
+        for i, b in enumerate(f.blocks):
+            if b['c'] or b['t']['k'] != 'switch' or i not in f.reachable():
+                continue
+            tt = true_target(b['t'])
+            if tt is None or not f.dominates(tt, r.bb) or r.bb in f.reach_from([0], avoid_enter=[tt]):
+                continue
+            ogs = core.origins_deep(prog, f, b['t']['o'], depth=3)
+            cond_calls = [o.data for o in ogs if o.kind == 'call']
+            if not any(x.name in LIMITS for x in cond_calls):
+                continue
+            reach2 = f.reach_from([tt], avoid_enter=[rb] if rb is not None else [])
+            if any(e in reach2 for e in exits):
+                continue
+            controlled.append((r, i, cond_calls))
     n = 0
     for f in prog.fns.values():
         if not f.file.startswith('src/storage/'):
             continue
         for c in f.calls:
-            if 'blob::core::Blob::<K>::write' not in prog.resolve(c) or c.bb not in f.reachable():
+            if 'blob::core::Blob::<K>::write' not in prog.resolve(c) or c.name == 'poll' or c.bb not in f.reachable():
                 continue
             n += 1
             key = 'rotation-check-after-write|%s' % prog.fns[f.id].root
-            # a request call controlled by a switch whose condition originates in a call that reads the active blob's size/count limits
-            reqs = [r for r in f.calls if req in prog.resolve(r) and r.name != 'poll']
             if not reqs:
-                ctx.bad(rid, key, c.where(), 'no rotation request is sent from the write path')
+                ctx.bad(rid, key, c.where(), 'no rotation request is sent anywhere in the storage layer')
+                continue
+            if not controlled:
+                ctx.bad(rid, key, c.where(), 'no rotation request is controlled by a condition derived from the blob size / record count limits, with the request sent on every path of its true edge')
                 continue
             ob = core.ok_block(f, c) or core.completion_block(f, c)
             exits = [bb for (bb, k, _) in core.exit_defs(f) if k in ('ok', 'fwd', 'val') and bb in f.reachable()]
             good = False
-            why = 'no switch controlling the request was found'
-            for r in reqs:
-                rb = core.completion_block(f, r)
-                for i, b in enumerate(f.blocks):
-                    if b['c'] or b['t']['k'] != 'switch' or i not in f.reachable():
-                        continue
-                    tt = true_target(b['t'])
-                    if tt is None or not f.dominates(tt, r.bb) or r.bb in f.reach_from([0], avoid_enter=[tt]):
-                        continue
-                    ogs = core.origins_deep(prog, f, b['t']['o'], depth=3)
-                    cond_calls = [o.data for o in ogs if o.kind == 'call']
-                    limits = [x for x in cond_calls if x.name in ('file_size', 'records_count', 'max_blob_size', 'max_data_in_blob')]
-                    if not limits:
-                        why = 'the controlling condition does not derive from the blob size / record count limits'
-                        continue
-                    # the deciding call happens after the write, on every path from the ok edge to the switch
-                    deciders = [x for x in f.calls if any(o.kind == 'call' and o.data.bb == x.bb and o.fn.id == f.id for o in core.origins(f, b['t']['o']))]
-                    if deciders and not all(d.bb in f.reach_from([ob]) for d in deciders):
-                        why = 'the rotation condition is computed before the write'
-                        continue
-                    # from the ok edge of the write every path to an ok exit passes the switch
-                    reach = f.reach_from([ob], avoid_exit=[i])
-                    if any(e in reach for e in exits):
-                        why = 'an ok-return is reachable after the write without evaluating the rotation condition'
-                        continue
-                    reach2 = f.reach_from([tt], avoid_enter=[rb] if rb is not None else [])
-                    if any(e in reach2 for e in exits):
-                        why = 'the true edge of the rotation condition can reach the ok-return without sending the request'
-                        continue
+            why = 'after an ok write an ok-return is reachable without the rotation condition having been evaluated'
+            for (r, sw, cond_calls) in controlled:
+                # the part of the condition computed in the body of the write: calls of this body among the condition's origins
+                here = [x for x in cond_calls if x.fn.id == f.id and x.bb in f.reach_from([ob])]
+                if not here:
+                    continue
+                reach = f.reach_from([ob], avoid_exit=[x.bb for x in here])
+                if any(e in reach for e in exits):
+                    continue
+                # the request's function is this body or a (transitive) caller that consumes this body's result
+                if r.fn.id == f.id or any(core.Origin('call', r.fn, 0, x).kind == 'call' and any(t == (f.parent if f.is_coroutine else f.id) for t in prog.resolve(x)) for x in cond_calls if x.fn.id == r.fn.id):
                     good = True
             if good:
                 ctx.ok(rid, key, c.where(), 'size/count condition evaluated after every ok write; its true edge always sends the rotation request')
